@@ -441,7 +441,7 @@ def audit_env_insert_sites():
                 continue  # a plain HashMap under construction in FunctionDef::call (covered by U-BIND)
             # enclosing fn
             encl = None
-            for fm in re.finditer(r"^(?:pub(?:\([a-z]+\))?\s+)?fn\s+(\w+)", code[:m.start()], flags=re.M):
+            for fm in re.finditer(r"^[ \t]*(?:pub(?:\([a-z]+\))?\s+)?fn\s+(\w+)", code[:m.start()], flags=re.M):
                 encl = fm.group(1)
             ok = (fn, encl) in allowed
             obs.append({"case": f"insert-site:{fn}:{encl}:{m.group(1)}", "ok": ok,
@@ -572,12 +572,12 @@ def audit_heap_mutation_sites():
             if rel.endswith("heap.rs"):
                 continue  # the definitions themselves (get_mut / reify_mut forwarders)
             recv = code[max(0, m.start() - 40):m.start()]
-            if not re.search(r"heap\w*$", recv.strip().split()[-1] if recv.strip() else ""):
-                # receiver is not a heap (e.g. HashMap::get_mut): not a heap mutation site
-                if "heap" not in recv:
-                    continue
+            # reify_mut exists only on heap pointers: always a heap mutation site. get_mut also exists on maps and
+            # vectors: counted only when the receiver expression names a heap
+            if m.group(1) == "get_mut" and "heap" not in recv.lower():
+                continue
             encl = None
-            for fm in re.finditer(r"^(?:pub(?:\([a-z]+\))?\s+)?fn\s+(\w+)", code[:m.start()], flags=re.M):
+            for fm in re.finditer(r"^[ \t]*(?:pub(?:\([a-z]+\))?\s+)?fn\s+(\w+)", code[:m.start()], flags=re.M):
                 encl = fm.group(1)
             seen += 1
             ok = (rel, encl) in allowed
